@@ -539,16 +539,16 @@ func (s *sess) checkRegisteredOnce(rule string, in bool, key string) {
 			}
 		})
 	}
-	ob := c.Ob(rule, r.Parent.Name(), "the "+key+" handler is registered once per session", r.Site.Pos())
+	ob := c.Ob(rule, an.NameOf(r.Parent), "the "+key+" handler is registered once per session", r.Site.Pos())
 	switch {
 	case r.Parent.Parent() != nil:
-		ob.Fail("the handler is registered inside the function literal %s: it is added again each time that literal runs, and each copy answers", r.Parent.Name())
+		ob.Fail("the handler is registered inside the function literal %s: it is added again each time that literal runs, and each copy answers", an.NameOf(r.Parent))
 	case inLoop(r.Site.Block()):
 		ob.Fail("the handler is registered inside a loop")
 	case reach[r.Parent] != "":
-		ob.Fail("the handler is registered in %s, which is reached from %s: it is added again on every such call (the pool only appends), so one message is then handled — and answered — several times", r.Parent.Name(), reach[r.Parent])
+		ob.Fail("the handler is registered in %s, which is reached from %s: it is added again on every such call (the pool only appends), so one message is then handled — and answered — several times", an.NameOf(r.Parent), reach[r.Parent])
 	default:
-		ob.Ok("registered in %s, which no handler, callback or goroutine calls", r.Parent.Name())
+		ob.Ok("registered in %s, which no handler, callback or goroutine calls", an.NameOf(r.Parent))
 	}
 }
 
@@ -571,10 +571,10 @@ func checkUnboundedFieldRead(c *core.Ctx, rule string) {
 			if cal == nil || cal.Pkg == nil || cal.Pkg.Pkg.Path() != "bufio" || cal.Signature.Recv() == nil || !an.TypeIs(cal.Signature.Recv().Type(), "bufio", "Reader") {
 				return
 			}
-			if strings.HasPrefix(cal.Name(), "Read") || cal.Name() == "Peek" {
+			if strings.HasPrefix(an.NameOf(cal), "Read") || an.NameOf(cal) == "Peek" {
 				n++
-				c.Check(cal.Name() == "ReadBytes" || cal.Name() == "ReadString", rule, fn.Name(), "fields are read whole, whatever their length", in.Pos(), "bufio.Reader.ReadBytes",
-					"the stream is read with bufio.Reader."+cal.Name()+": a field longer than the reader's buffer (4096 bytes by default) fails with ErrBufferFull or arrives in pieces, so a long TestReqID is not echoed")
+				c.Check(an.NameOf(cal) == "ReadBytes" || an.NameOf(cal) == "ReadString", rule, an.NameOf(fn), "fields are read whole, whatever their length", in.Pos(), "bufio.Reader.ReadBytes",
+					"the stream is read with bufio.Reader."+an.NameOf(cal)+": a field longer than the reader's buffer (4096 bytes by default) fails with ErrBufferFull or arrives in pieces, so a long TestReqID is not echoed")
 			}
 		})
 	}
